@@ -236,7 +236,7 @@ func genMalformed(r *hx.Rng) Mut {
 	i := r.Intn(64)
 	switch r.Pick(3, 3, 2, 3) {
 	case 0:
-		return Mut{Op: "badlink", J: i, S: "badlnk", T: []string{"nowhere", "a/none", "", "a", "b", "./a/"}[r.Intn(6)]}
+		return Mut{Op: "badlink", J: i, S: "badlnk", T: []string{"nowhere", "a/none", "zz/../none2"}[r.Intn(3)]}
 	case 1:
 		return Mut{Op: "gap", I: i, N: int64(r.Range(1, 9))}
 	case 2:
